@@ -409,7 +409,7 @@ def single_assignments(fnode):
         if isinstance(n, ast.Assign):
             for t in n.targets:
                 for x in ast.walk(t):
-                    if isinstance(x, ast.Name):
+                    if isinstance(x, ast.Name) and isinstance(x.ctx, ast.Store):
                         cnt[x.id] = cnt.get(x.id, 0) + 1
                         if len(n.targets) == 1 and t is x:
                             val[x.id] = n.value
@@ -647,3 +647,121 @@ def repeat_loop(ctx, fi, g):
             if 'range' in src and ('options.repeat' in src or 'repeat' in src):
                 return n
     return None
+
+
+ORDER_KEEPING = ('iter', 'list', 'tuple')
+
+
+def iter_source(expr):
+    """(source expression, form) when iterating *expr* visits the elements of the source once
+    each, in order: X, iter(X), list(X), tuple(X) -> 'plain'; enumerate(X[, start]) ->
+    'enumerate' (the element is the second item of the loop target)"""
+    e, form = expr, 'plain'
+    while isinstance(e, ast.Call) and isinstance(e.func, ast.Name) and not e.keywords:
+        if e.func.id in ORDER_KEEPING and len(e.args) == 1:
+            e = e.args[0]
+        elif e.func.id == 'enumerate' and form == 'plain' and 1 <= len(e.args) <= 2:
+            e, form = e.args[0], 'enumerate'
+        else:
+            break
+    return e, form
+
+
+def iterates_in_order(iter_expr, name):
+    src, _form = iter_source(iter_expr)
+    return is_name(src, name)
+
+
+def element_target(for_stmt):
+    """the part of a for-loop target that receives the element of the iterated source"""
+    _src, form = iter_source(for_stmt.iter)
+    t = for_stmt.target
+    if form == 'enumerate':
+        return t.elts[1] if isinstance(t, ast.Tuple) and len(t.elts) == 2 else None
+    return t
+
+
+def literal_elements(x, consts=None):
+    """the constant elements of a literal collection -- (a, b), [a, b], {a, b}, a single string,
+    frozenset/set/tuple/list(<literal collection>) or a module constant naming one -- else None"""
+    if isinstance(x, (ast.Tuple, ast.List, ast.Set)):
+        vals = [y.value for y in x.elts if isinstance(y, ast.Constant)]
+        return vals if len(vals) == len(x.elts) else None
+    if isinstance(x, ast.Call) and isinstance(x.func, ast.Name) and not x.keywords and \
+            x.func.id in ('frozenset', 'set', 'tuple', 'list', 'sorted'):
+        if not x.args:
+            return []
+        return literal_elements(x.args[0], consts) if len(x.args) == 1 else None
+    if isinstance(x, ast.Name) and consts and x.id in consts:
+        return literal_elements(consts[x.id], None)
+    return None
+
+
+def record_field_expander(ctx, fi):
+    """expr -> expr in which ``v.f`` is replaced by the constructor argument when the local *v* is
+    assigned exactly once, from ``C(...)`` with C a class of the package whose fields are the
+    annotated names of its body (dataclass style), and f is never stored through v"""
+    m = ctx.model
+    env = {}
+    stored = {(dotted(t.value), t.attr) for n in ast.walk(fi.node)
+              if isinstance(n, (ast.Assign, ast.AugAssign))
+              for t in (n.targets if isinstance(n, ast.Assign) else [n.target])
+              if isinstance(t, ast.Attribute)}
+    for v, val in single_assignments(fi.node).items():
+        if not (isinstance(val, ast.Call) and dotted(val.func)):
+            continue
+        ci = m.resolve_class(fi.module, dotted(val.func))
+        if ci is None:
+            continue
+        fields = [x.target.id for x in ci.node.body if isinstance(x, ast.AnnAssign) and
+                  isinstance(x.target, ast.Name)]
+        if not fields or any(isinstance(a, ast.Starred) for a in val.args):
+            continue
+        for f, a in zip(fields, val.args):
+            env[(v, f)] = a
+        for k in val.keywords:
+            if k.arg in fields:
+                env[(v, k.arg)] = k.value
+
+    class T(ast.NodeTransformer):
+        def visit_Attribute(self, n):
+            self.generic_visit(n)
+            if isinstance(n.value, ast.Name) and (n.value.id, n.attr) in env and \
+                    (n.value.id, n.attr) not in stored and isinstance(n.ctx, ast.Load):
+                return ast_copy(env[(n.value.id, n.attr)])
+            return n
+
+    def expand(e):
+        return T().visit(ast_copy(e)) if env else e
+    return expand
+
+
+def yields_call_of(ctx, module, expr, name, depth=2):
+    """*expr* evaluates to the result of calling *name*: it is ``name(...)`` itself, or a call of a
+    function of the same module every path of which returns such a value"""
+    if not isinstance(expr, ast.Call):
+        return False
+    d = dotted(expr.func)
+    if d == name:
+        return True
+    if depth <= 0 or d is None or '.' in d:
+        return False
+    h = module.functions.get(d)
+    if h is None:
+        return False
+    g = ctx.cfg(h)
+    rets = [n for n in g.nodes if n.kind == 'stmt' and isinstance(n.ast, ast.Return)]
+    if not rets or any(n.ast.value is None for n in rets):
+        return False
+    # no normal path falls off the end
+    for s_, k in g.pred[g.exit]:
+        if not isinstance(g.node(s_).ast, ast.Return):
+            return False
+    assigns = local_assignments(h.node)
+
+    def val_ok(v, seen=()):
+        if isinstance(v, ast.Name) and v.id not in seen:
+            vs = [x for x in assigns.get(v.id, [])]
+            return bool(vs) and all(isinstance(x, ast.AST) and val_ok(x, seen + (v.id,)) for x in vs)
+        return yields_call_of(ctx, module, v, name, depth - 1)
+    return all(val_ok(n.ast.value) for n in rets)
